@@ -62,6 +62,27 @@ func c14Scenarios(tier string) []*Scenario {
 		}
 	}
 	out = append(out, c14Watchdog(bound))
+	// client handshakes that end exactly at the deadline: whatever the outcome, once the transport
+	// is closed every goroutine the library started must have exited
+	for _, kind := range []string{"fail", "success", "norc", "disconnect"} {
+		for _, R := range []int{0, 1} {
+			sc := c12Scenario(R, append(make([]c12Act, 0), c12Tie(R, kind)...), nil, bound)
+			sc.Name = fmt.Sprintf("client-handshake-tie/R%d/%s", R, kind)
+			sc.Check = func(s *vs.Sched) string {
+				st := c12st
+				if st.conn.Closed {
+					if b := s.BlockedLib(); len(b) > 0 {
+						return fmt.Sprintf("transport closed (dial returned conn=%v err=%v) but library goroutines are still blocked: %s", st.retConn, st.retErr, strings.Join(b, ", "))
+					}
+				}
+				return ""
+			}
+			sc.Outcome = func(s *vs.Sched) string {
+				return fmt.Sprintf("conn=%v closed=%v blocked=%d", c12st.retConn, c12st.conn.Closed, len(s.BlockedLib()))
+			}
+			out = append(out, sc)
+		}
+	}
 	if tier == "thorough" {
 		a := c14Scenario("thread", "eof", vs.Unbounded)
 		a.Name = "validate-cached/thread/eof"
@@ -252,4 +273,14 @@ func c14Watchdog(bound int) *Scenario {
 	}
 	return &Scenario{Name: "client-watchdog/quiet-close", Body: body, Check: check, Bound: bound, Horizon: 12 * time.Second,
 		Outcome: func(s *vs.Sched) string { return fmt.Sprintf("blockedlib=%d end=%v", len(s.BlockedLib()), s.EndTime) }}
+}
+
+// c12Tie: the last CER is answered exactly one interval later, i.e. at the handshake deadline.
+func c12Tie(R int, kind string) []c12Act {
+	sc := make([]c12Act, R+1)
+	for i := range sc {
+		sc[i] = c12Act{Kind: "nothing"}
+	}
+	sc[R] = c12Act{Kind: kind, Delay: 2}
+	return sc
 }
